@@ -68,7 +68,7 @@ pub fn run_cli_flags(args: &Args, property: &str) -> Report {
         // what may stand in front of a sub-command without meaning anything for it: the sub-command has its own flags
         let mut top: Vec<String> = vec![];
         // inputs: the whole tree, a sub-directory, or some sources by name (source name or output name)
-        if !matches!(property, "C09" | "C13") && rng.chance(1, 2) {
+        if rng.chance(1, 2) {
             let mut inputs: Vec<String> = vec![];
             if !p.dirs.is_empty() && rng.chance(1, 2) {
                 inputs.push(rng.pick(&p.dirs).clone());
@@ -83,6 +83,7 @@ pub fn run_cli_flags(args: &Args, property: &str) -> Report {
             }
         }
         let mut sub: Option<&str> = None;
+        let mut changed_output: Option<String> = None;
         match variant {
             0 => {
                 cfg.trailing = false;
@@ -124,9 +125,14 @@ pub fn run_cli_flags(args: &Args, property: &str) -> Report {
             }
             let _ = run_impl(&pa, &b0, &log);
             if variant == 2 || (variant == 3 && rng.chance(1, 2)) {
-                // make one output stale (verify must then fail, also through the exit status)
+                // make one output stale or (needed only) missing; verify must then fail, also through the exit status
                 let o = output_name(&p.sources[rng.below(p.sources.len())]);
-                let _ = std::fs::write(pa.join(&o), b"stale\n");
+                if variant == 2 && rng.chance(1, 2) {
+                    let _ = std::fs::remove_file(pa.join(&o));
+                } else {
+                    let _ = std::fs::write(pa.join(&o), b"stale\n");
+                }
+                changed_output = Some(o);
             }
             if variant == 4 && rng.chance(1, 3) {
                 // an output that is already gone, possibly named as an input: its temp files must still be cleaned
@@ -180,11 +186,12 @@ pub fn run_cli_flags(args: &Args, property: &str) -> Report {
         } else if cli_ok && after.files != lib.after.files {
             let diff: Vec<&String> = after.files.keys().filter(|k| after.files.get(*k) != lib.after.files.get(*k)).collect();
             bad = Some(format!("files differ between the CLI run and the library run: {:?}", diff));
-        } else if variant == 1 && cli_ok {
-            // -N on an up-to-date tree: nothing may be touched
+        } else if (variant == 1 || variant == 2) && cli_ok {
+            // -N: what was already correct may not be touched (everything on an up-to-date tree; everything
+            // but the one stale / missing output otherwise)
             for (f, m) in &meta_after {
-                if meta_before.get(f) != Some(m) {
-                    bad = Some(format!("`-N` on an up-to-date tree rewrote `{f}` (inode or mtime changed): -N is not the only-if-needed mode"));
+                if Some(f) != changed_output.as_ref() && meta_before.get(f) != Some(m) && meta_before.contains_key(f) {
+                    bad = Some(format!("`-N` rewrote `{f}` although its content was already correct (inode or mtime changed): -N is not the only-if-needed mode"));
                 }
             }
         }
